@@ -1,5 +1,11 @@
 import CCVerif.Model.Oss
 import CCVerif.Lemmas.Oss
+import CCVerif.Lemmas.OssRel
+import CCVerif.Lemmas.OssInv
+import CCVerif.Lemmas.OssTop
+import CCVerif.Lemmas.OssExec
+import CCVerif.Lemmas.OssStep
+import CCVerif.Lemmas.OssStab
 /-!
 # C19 — the operation schema stays sound and never shows outdated synthesis as current
 
@@ -15,13 +21,26 @@ variant is named.
   of items and connections) and holds after every history (`structInv_history`);
   `erase_only_leaves`; `index_in_range` (no `.at()` throws); `children_parents`.
 * freshness: `no_stale_done_statement v`; refuted for the pinned code by three closed histories
-  (`no_stale_done_counterexample_exec / _lost / _gone`, `no_stale_done_pinned_false`), checked for
-  the repaired variant on the same histories (`no_stale_done_repaired_examples`), NOT proved in
-  general for the repaired variant. `heard_change_not_done` proves the mechanism itself for every
-  variant: an announcement the schema hears and that alters the content leaves no child `done`.
-* result of an execution: `exec_result_partial` (the stored content is the oracle's synthesis of
-  the operand contents read in this call, aggregated with the previous result), `dataFor_reads`;
-  the full `exec_result_statement` is not proved.
+  (`no_stale_done_counterexample_exec / _lost / _gone`, `no_stale_done_pinned_false`). For the
+  repaired code (the code of /repo now) **`no_stale_done_repaired`** proves it for every admissible
+  history (`admissibleRun`: a document is opened only when it is closed, new documents get names
+  never used before, a reloaded document keeps for every child the order of its connections), every
+  oracle whose synthesis never has the "no hash" content `0`, in every state without a model fault.
+  The invariant behind it: `DInv` (handle invariant `HInv` of `Lemmas/OssInv.lean`: an attached
+  document exists, is open, handle hash = content announced last; a detached handle names a closed
+  document; no two pictograms stand for one document; `desc = src`; the schema listens) and `J7`
+  (an operation not marked outdated with a recorded execution was built from the hashes its parents'
+  handles carry now), carried through the re-entrant reaction chain by `reactions_rel`,
+  `reactions_hinv` and through every API call by `tinv_step`. `no_stale_done_hypotheses_needed`
+  shows on closed histories that each hypothesis is needed, `no_stale_done_repaired_unrestricted_false`
+  that the unrestricted statement fails for the repaired model too. `heard_change_not_done` (every
+  variant): an announcement the schema hears and that alters the content leaves no child `done`.
+* result of an execution: `exec_result_statement` (arbitrary dynamic state) is false
+  (`exec_result_statement_false`: a document attached to two pictograms); **`exec_result_reachable`**
+  proves its conclusion — operand documents hold at the END of the call the contents the synthesis
+  was computed from, the result document holds the oracle's synthesis of them, status `done` — for
+  every state reached by an admissible history of the repaired code. `exec_result_partial`,
+  `dataFor_reads`: the earlier partial forms (any variant, any state).
 * `execute_null_translations_counterexample`: the fourth pinned defect (a fault).
 -/
 namespace CCVerif.Oss
@@ -933,7 +952,686 @@ theorem dataFor_reads (s : Struct) (o : Oracle) (f : Nat) (d : Dyn) (q : Pid) (c
               rw [hn, hm]
               simp [h]
 
+
+/-! ## freshness for the repaired code: the invariant and its preservation -/
+
+private theorem structOk_of_inv {s : Struct} (h : StructInv s) : StructOk s := by
+  obtain ⟨rank, hr⟩ := h.parents.acyclic
+  refine ⟨⟨h.keys.graphWf, fun c hc => Nat.lt_irrefl _ (hr c c hc), ?_⟩, h.keys.opSub, ?_⟩
+  · intro q c hc
+    have hp := ((Graph.mem_childrenOf h.keys.graphWf).1 hc).2
+    have : c ∈ s.opKeys := by
+      apply Classical.byContradiction
+      intro hn
+      rw [h.parents.baseNoParents c hn] at hp; cases hp
+    simpa [Struct.isOperable] using this
+  · intro p hp
+    obtain ⟨a, b, h1, _, h3, h4⟩ := h.parents.opParents p hp
+    exact ⟨a, b, h1, h3, h4⟩
+
+/-- which steps the freshness theorem speaks about: a document is only opened when it is closed;
+new documents get names never used before (as `CreateLocalDesc` and the harness' manager do); a
+document loaded back keeps, for every child, the order of its connections -/
+def admissibleStep (st : St) : Op → Bool
+  | .openSrc n => match st.d.source n with
+    | some x => !x.opened
+    | none => true
+  | .newSource n _ => decide (st.d.nextName < n)
+  | .reload _ edges => st.s.storage.all fun c => (edges.filter (·.1 == c)).map (·.2) == st.s.graph.parentsOf c
+  | _ => true
+
+/-- admissibility of a history (newest step first, as `run` takes it) -/
+def admissibleRun (v : Variant) (o : Oracle) : List Op → Bool
+  | [] => true
+  | op :: ops => admissibleRun v o ops && (match run v o ops with
+    | some st => admissibleStep st op
+    | none => true)
+
+/-- the invariant of the freshness theorem: in a state without a model fault, the handle invariant
+and the freshness invariant hold -/
+def TInv (st : St) : Prop := st.d.fault = none → DInv st.s st.d ∧ J7 st.s noEx st.d
+
+private theorem statusOf_done {s : Struct} {d : Dyn} {p : Pid} (h : statusOf s d p = .done) : (d.op p).outdated = false := by
+  unfold statusOf at h
+  split at h
+  · cases h
+  · dsimp only at h
+    split at h
+    · cases h
+    · split at h
+      · cases h
+      · split at h
+        · split at h
+          · cases h
+          · rename_i ho; simpa using ho
+        · cases h
+
+/-- the invariants give the freshness clause -/
+private theorem fresh_of_inv {st : St} (hs : StructInv st.s) (i : DInv st.s st.d) (j : J7 st.s noEx st.d) : st.fresh = true := by
+  unfold St.fresh
+  rw [List.all_eq_true]
+  intro p hp
+  unfold St.freshAt
+  split
+  · rfl
+  · rename_i hst
+    have hdone : statusOf st.s st.d p = .done := by simpa using hst
+    have hout := statusOf_done hdone
+    obtain ⟨p1, p2, hpar, _, hs1, hs2⟩ := hs.parents.opParents p hp
+    rw [hpar]
+    cases hb : (st.d.op p).built with
+    | none => rfl
+    | some b =>
+      obtain ⟨b1, b2⟩ := b
+      dsimp only
+      obtain ⟨a1, a2⟩ := j p hp hout b1 b2 hb p1 p2 hpar
+      have okq : ∀ q b, q ∈ st.s.storage → (b = some (st.d.handle q).coreHash ∧ (st.d.handle q).ed ≠ none) →
+          (if (st.d.handle q).empty = true then false
+            else match st.announcedOf q with
+              | none => true
+              | some c => b == some c) = true := by
+        intro q b hq ⟨e1, e2⟩
+        have hne : (st.d.handle q).empty = false := by
+          cases hh : (st.d.handle q).empty with
+          | false => rfl
+          | true => exact absurd (Handle.empty_iff_ed.1 hh) e2
+        rw [hne]
+        simp only [Bool.false_eq_true, if_false]
+        cases ha : st.announcedOf q with
+        | none => rfl
+        | some c =>
+          dsimp only
+          unfold St.announcedOf at ha
+          obtain ⟨x, hx, hxc⟩ := Option.map_eq_some_iff.1 ha
+          obtain ⟨n, hn, hnx⟩ := Option.bind_eq_some_iff.1 hx
+          have : (st.d.handle q).coreHash = x.announced := by
+            cases hsrc : (st.d.handle q).src with
+            | some m =>
+              have := i.c2 q hq m hsrc
+              rw [hn] at this; injection this with this; subst this
+              obtain ⟨y, hy, _, yh⟩ := i.h.conn q hq (by simp) n hsrc
+              rw [hnx] at hy; injection hy with hy; subst hy
+              exact yh
+            | none => exact (i.h.detached q hq (by simp) hsrc n hn x hnx).2
+          rw [e1, this, hxc]
+          simp
+      simp only [Bool.and_eq_true]
+      exact ⟨okq p1 b1 hs1 (a1 (fun e => e)), okq p2 b2 hs2 (a2 (fun e => e))⟩
+
+private theorem tinv_of_step {st : St} {d' : Dyn} (h : Step st.s st.d d') (t : TInv st) : TInv { st with d := d' } := by
+  intro hf
+  obtain ⟨i, j⟩ := t (h.fault hf)
+  exact h.post i j hf
+
+private theorem J7.setOp_noBuilt {s : Struct} {d : Dyn} (j : J7 s noEx d) (p : Pid) : J7 s noEx (d.setOp p { d.op p with built := none }) :=
+  j.setOp_reset p _ rfl
+
+/-- the graph between `graph->Erase(p)` and the erasure of the keys is still good enough for the
+reactions of `Discard` -/
+private theorem graphOk_eraseFacets {s : Struct} (h : StructInv s) {p : Pid} (hleaf : s.graph.childrenOf p = []) :
+    GraphOk (s.eraseFacets p) := by
+  obtain ⟨wg, hother, hself, _⟩ := graph_erase_leaf h hleaf
+  obtain ⟨rank, hr⟩ := h.parents.acyclic
+  have hpar : ∀ c q, q ∈ (s.graph.erase p).parentsOf c → c ≠ p ∧ q ∈ s.graph.parentsOf c := by
+    intro c q hq
+    by_cases e : c = p
+    · subst e; rw [hself] at hq; cases hq
+    · rw [hother c e] at hq; exact ⟨e, hq⟩
+  refine ⟨wg, ?_, ?_⟩
+  · intro c hc
+    exact Nat.lt_irrefl _ (hr c c (hpar c c hc).2)
+  · intro q c hc
+    have hp := ((Graph.mem_childrenOf wg).1 hc).2
+    obtain ⟨_, hp'⟩ := hpar c q hp
+    have : c ∈ s.opKeys := by
+      apply Classical.byContradiction
+      intro hn
+      rw [h.parents.baseNoParents c hn] at hp'; cases hp'
+    simpa [Struct.isOperable, Struct.eraseFacets] using this
+
+/-- what loading a rearranged document does to the keys and the parent lists -/
+private theorem reload_struct_facts {s s' : Struct} (h : StructInv s) {items : List Pid} {edges : List (Pid × Pid)}
+    {doc : List DocItem} (hitems : items.Perm s.storage) (hedges : edges.Perm s.graph.edgeList)
+    (hdocU : doc.map (·.uid) = items) (hdocO : ∀ it ∈ doc, it.op.isSome = s.isOperable it.uid)
+    (hl : loadPicts doc {} = some s')
+    (hadm : ∀ c ∈ s.storage, (edges.filter (·.1 == c)).map (·.2) = s.graph.parentsOf c) :
+    (∀ q, q ∈ s'.storage ↔ q ∈ s.storage) ∧ (∀ q, q ∈ s'.opKeys ↔ q ∈ s.opKeys) ∧
+    (∀ q, (s'.graph.loadParents edges).parentsOf q = s.graph.parentsOf q) := by
+  have w := h.keys.graphWf
+  obtain ⟨k, hg, hm, ho⟩ := keysInv_loadPicts doc {} s' keysInv_empty hl
+  have hst : ∀ q, q ∈ s'.storage ↔ q ∈ s.storage := by
+    intro q; rw [hm q, hdocU, hitems.mem_iff]; simp
+  have hop : ∀ q, q ∈ s'.opKeys ↔ q ∈ s.opKeys := by
+    intro q
+    rw [ho q]
+    constructor
+    · rintro (h1 | ⟨it, hit, rfl, h2⟩)
+      · cases h1
+      · rw [hdocO it hit] at h2
+        simpa [Struct.isOperable] using h2
+    · intro hq
+      have hqs : q ∈ doc.map (·.uid) := by rw [hdocU, hitems.mem_iff]; exact h.keys.opSub q hq
+      obtain ⟨it, hit, rfl⟩ := List.mem_map.1 hqs
+      exact Or.inr ⟨it, hit, rfl, by rw [hdocO it hit]; simpa [Struct.isOperable] using hq⟩
+  have hfib : ∀ q, (edges.filter (·.1 == q)).map (·.2) |>.Perm (s.graph.parentsOf q) := by
+    intro q
+    rw [← Graph.edgeList_fibre s.graph w q]
+    exact (hedges.filter _).map _
+  have hmemE : ∀ c p, (c, p) ∈ edges ↔ p ∈ s.graph.parentsOf c := by
+    intro c p; rw [hedges.mem_iff, Graph.mem_edgeList w]
+  obtain ⟨rank, hr⟩ := h.parents.acyclic
+  have parNodup : ∀ q, (s.graph.parentsOf q).Nodup := by
+    intro q
+    by_cases hq : q ∈ s.opKeys
+    · obtain ⟨a, b, h1, h2, _, _⟩ := h.parents.opParents q hq
+      rw [h1]; simp [h2]
+    · rw [h.parents.baseNoParents q hq]; exact List.nodup_nil
+  have hnd : ([] ++ edges).Nodup := by
+    rw [List.nil_append]
+    apply nodup_of_fibres
+    intro c
+    exact (hfib c).nodup_iff.2 (parNodup c)
+  have hne : ∀ e ∈ [] ++ edges, e.1 ≠ e.2 := by
+    intro e he heq
+    rw [List.nil_append] at he
+    have : e.2 ∈ s.graph.parentsOf e.1 := (hmemE e.1 e.2).1 he
+    have := hr _ _ this
+    rw [heq] at this; exact Nat.lt_irrefl _ this
+  have hrev : ∀ e ∈ [] ++ edges, (e.2, e.1) ∉ [] ++ edges := by
+    intro e he he2
+    rw [List.nil_append] at he he2
+    have h1 := hr _ _ ((hmemE e.1 e.2).1 he)
+    have h2 := hr _ _ ((hmemE e.2 e.1).1 he2)
+    omega
+  have hg0 : s'.graph = {} := hg
+  obtain ⟨_, hpar, _⟩ := Graph.loadParents_spec edges [] s'.graph k.graphWf
+    (by intro q; rw [hg0]; simp [Graph.parentsOf, Graph.findItemIndex]) hnd hne hrev
+  simp only [List.nil_append] at hpar
+  refine ⟨hst, hop, ?_⟩
+  intro q
+  rw [hpar q]
+  by_cases hq : q ∈ s.storage
+  · exact hadm q hq
+  · have hqo : q ∉ s.opKeys := fun e => hq (h.keys.opSub q e)
+    have := hfib q
+    rw [h.parents.baseNoParents q hqo] at this ⊢
+    exact List.perm_nil.1 this
+
+/-- every admissible step of the repaired code preserves the invariant -/
+private theorem tinv_step (o : Oracle) (hsyn : o.synthNonzero) (st st' : St) (op : Op) (b : Bool)
+    (hs : StructInv st.s) (t : TInv st) (hadm : admissibleStep st op = true)
+    (hstep : step Variant.repaired o st op = some (st', b)) : TInv st' := by
+  have k := structOk_of_inv hs
+  cases op with
+  | insertBase fresh =>
+    simp only [step, Option.map_eq_some_iff] at hstep
+    obtain ⟨s', hs', he⟩ := hstep
+    injection he with he; subst he
+    intro hf
+    obtain ⟨i, j⟩ := t hf
+    unfold Struct.insertBase at hs'
+    split at hs'
+    · cases hs'
+    · rename_i hfr
+      split at hs'
+      · cases hs'
+      · rename_i pos _
+        injection hs' with hs'; subst hs'
+        have hfresh : fresh ∉ st.s.storage := fun hm => by
+          have := (hs.keys.idsEq fresh).2 hm
+          simp [this] at hfr
+        refine insert_transfer k hfresh (fresh := fresh) (d := st.d) (s' := st.s.insertInternal fresh pos false)
+          (d' := (st.d.dropPid fresh).setHandle fresh {}) ?_ ?_ ?_ ?_ (fun _ => rfl) rfl rfl ?_ ?_ i j
+        · intro q hq
+          simp only [Struct.insertInternal] at hq
+          split at hq
+          · exact Or.inr hq
+          · rcases List.mem_cons.1 hq with e | e
+            · exact Or.inl e
+            · exact Or.inr e
+        · intro c hc
+          exact Or.inr (by simpa [Struct.insertInternal] using hc)
+        · intro c _; rfl
+        · intro q
+          show ((st.d.dropPid fresh).setHandle fresh {}).handle q = _
+          rw [Dyn.handle_setHandle, Dyn.handle_dropPid]
+          split <;> rfl
+        · intro c hc
+          show ((st.d.dropPid fresh).setHandle fresh {}).op c = _
+          rw [Dyn.op_setHandle, Dyn.op_dropPid, if_neg hc]
+        · show (((st.d.dropPid fresh).setHandle fresh {}).op fresh).built = none
+          rw [Dyn.op_setHandle, Dyn.op_dropPid, if_pos rfl]
+  | insertOperation a b' fresh =>
+    simp only [step, Option.map_eq_some_iff] at hstep
+    obtain ⟨r, hr, he⟩ := hstep
+    cases r with
+    | none => simp only at he; injection he with he; subst he; exact t
+    | some s' =>
+      simp only at he; injection he with he; subst he
+      intro hf
+      obtain ⟨i, j⟩ := t hf
+      unfold Struct.insertOperation at hr
+      split at hr
+      · cases hr
+      · split at hr
+        · cases hr
+        · split at hr
+          · cases hr
+          · rename_i hfr
+            dsimp only at hr
+            split at hr
+            · cases hr
+            · rename_i pos _
+              injection hr with hr; injection hr with hr; subst hr
+              have hfresh : fresh ∉ st.s.storage := fun hm => by
+                have := (hs.keys.idsEq fresh).2 hm
+                simp [this] at hfr
+              obtain ⟨_, _, hother, _⟩ := Graph.addItem_spec st.s.graph hs.keys.graphWf fresh a b'
+              refine insert_transfer k hfresh (fresh := fresh) (d := st.d)
+                (s' := ({ st.s with graph := st.s.graph.addItem fresh [a, b'] } : Struct).insertInternal fresh pos true)
+                (d' := ((st.d.dropPid fresh).setHandle fresh {}).setOp fresh {}) ?_ ?_ ?_ ?_ (fun _ => rfl) rfl rfl ?_ ?_ i j
+              · intro q hq
+                simp only [Struct.insertInternal] at hq
+                split at hq
+                · exact Or.inr hq
+                · rcases List.mem_cons.1 hq with e | e
+                  · exact Or.inl e
+                  · exact Or.inr e
+              · intro c hc
+                simp only [Struct.insertInternal, if_true, List.mem_cons, List.mem_filter] at hc
+                rcases hc with e | e
+                · exact Or.inl e
+                · exact Or.inr e.1
+              · intro c hc; exact hother c hc
+              · intro q
+                show (((st.d.dropPid fresh).setHandle fresh {}).setOp fresh {}).handle q = _
+                rw [Dyn.handle_setOp, Dyn.handle_setHandle, Dyn.handle_dropPid]
+                split <;> rfl
+              · intro c hc
+                show (((st.d.dropPid fresh).setHandle fresh {}).setOp fresh {}).op c = _
+                rw [Dyn.op_setOp, if_neg hc, Dyn.op_setHandle, Dyn.op_dropPid, if_neg hc]
+              · show ((((st.d.dropPid fresh).setHandle fresh {}).setOp fresh {}).op fresh).built = none
+                rw [Dyn.op_setOp, if_pos rfl]
+  | erase p =>
+    simp only [step] at hstep
+    split at hstep
+    · injection hstep with hstep; injection hstep with hstep; subst hstep; exact t
+    · rename_i he
+      injection hstep with hstep; injection hstep with hstep; subst hstep
+      have he' : st.s.erasable p = true := by simpa using he
+      simp only [Struct.erasable, Struct.contains, Bool.and_eq_true, List.isEmpty_iff] at he'
+      obtain ⟨hps, hleaf⟩ := he'
+      have g1 := graphOk_eraseFacets hs hleaf
+      obtain ⟨_, hother, hself, _⟩ := graph_erase_leaf hs hleaf
+      have hnp := not_parent_of_leaf hs hleaf
+      obtain ⟨gd, _⟩ := discard_spec g1 o st.d p
+      intro hf
+      have hf1 : (discard (st.s.eraseFacets p) o st.d p).fault = none := hf
+      obtain ⟨i, j⟩ := t (gd.fault hf1)
+      obtain ⟨i1, j1⟩ := erase_transfer1 (s := st.s) (s1 := st.s.eraseFacets p) (p := p) rfl rfl hother hself i j
+      obtain ⟨i2, r2⟩ := gd.post i1 hf1
+      have j2 : J7 (st.s.eraseFacets p) (exOnly p) (discard (st.s.eraseFacets p) o st.d p) :=
+        j1.of_jrel' g1 r2 (by intro q e; rcases e with e | e; exact e.elim; exact e)
+      show DInv ((st.s.eraseFacets p).eraseKeys p) ((discard (st.s.eraseFacets p) o st.d p).dropPid p) ∧
+        J7 ((st.s.eraseFacets p).eraseKeys p) noEx ((discard (st.s.eraseFacets p) o st.d p).dropPid p)
+      refine erase_transfer2 (s1 := st.s.eraseFacets p) (s2 := (st.s.eraseFacets p).eraseKeys p) ?_ ?_ rfl ?_ i2 j2
+      · intro q hq
+        have : q ∈ st.s.storage.filter (· != p) := hq
+        show q ∈ st.s.storage ∧ q ≠ p
+        simpa [List.mem_filter] using this
+      · intro c hc
+        have : c ∈ st.s.opKeys.filter (· != p) := hc
+        show c ∈ st.s.opKeys ∧ c ≠ p
+        simpa [List.mem_filter] using this
+      · intro c hc
+        by_cases e : c = p
+        · rw [e] at hc
+          have : p ∈ (st.s.graph.erase p).parentsOf p := hc
+          rw [hself] at this; cases this
+        · have : p ∈ (st.s.graph.erase p).parentsOf c := hc
+          rw [hother c e] at this
+          exact hnp c this
+  | newSource n c =>
+    simp only [step] at hstep
+    split at hstep
+    · cases hstep
+    · injection hstep with hstep; injection hstep with hstep; subst hstep
+      have hn : st.d.nextName < n := by simpa [admissibleStep] using hadm
+      exact tinv_of_step ((evNewSource_good st.s st.d n c hn).step k.g) t
+  | connect p n =>
+    simp only [step] at hstep
+    injection hstep with hstep; injection hstep with hstep; subst hstep
+    have g1 := (connectPict2Src_good k.g o st.d p n).step k.g
+    refine tinv_of_step ?_ t
+    split
+    · refine ⟨g1.fault, fun i j hf => ?_⟩
+      obtain ⟨i1, j1⟩ := g1.post i j hf
+      exact ⟨i1.setOp _ _, j1.setOp_noBuilt p⟩
+    · exact g1
+  | edit n c =>
+    simp only [step] at hstep; injection hstep with hstep; injection hstep with hstep; subst hstep
+    exact tinv_of_step ((evEdit_good st.s st.d n c).step k.g) t
+  | announce n =>
+    simp only [step] at hstep; injection hstep with hstep; injection hstep with hstep; subst hstep
+    exact tinv_of_step ((announce_good k.g o _ st.d n).step k.g) t
+  | close n =>
+    simp only [step] at hstep; injection hstep with hstep; injection hstep with hstep; subst hstep
+    exact tinv_of_step ((evClose_good st.s st.d n).step k.g) t
+  | openSrc n =>
+    simp only [step] at hstep; injection hstep with hstep; injection hstep with hstep; subst hstep
+    refine tinv_of_step ((evOpen_good k.g o st.d n ?_).step k.g) t
+    intro x hx
+    simp only [admissibleStep, hx] at hadm
+    simpa using hadm
+  | destroy n =>
+    simp only [step] at hstep; injection hstep with hstep; injection hstep with hstep; subst hstep
+    exact tinv_of_step ((evDestroy_good st.s st.d n).step k.g) t
+  | initFor p ty opts same =>
+    simp only [step] at hstep; injection hstep with hstep; injection hstep with hstep; subst hstep
+    exact tinv_of_step (initFor_step k.g o st.d p ty opts same) t
+  | execute p a =>
+    simp only [step] at hstep; injection hstep with hstep; injection hstep with hstep; subst hstep
+    exact tinv_of_step (execute_step k o hsyn _ st.d p a) t
+  | executeAll =>
+    simp only [step] at hstep; injection hstep with hstep; injection hstep with hstep; subst hstep
+    exact tinv_of_step (executeAll_step k o hsyn st.d) t
+  | reload items edges =>
+    simp only [step] at hstep
+    split at hstep
+    · cases hstep
+    · rename_i hperm
+      split at hstep
+      · cases hstep
+      · rename_i hall
+        simp only [Bool.or_eq_true, Bool.not_eq_true', not_or, Bool.not_eq_false] at hperm
+        simp only [Bool.not_eq_true', Bool.not_eq_false] at hall
+        simp only [Option.map_eq_some_iff] at hstep
+        obtain ⟨st2, hl, he⟩ := hstep
+        injection he with he; subst he
+        simp only [loadDoc, Option.map_eq_some_iff] at hl
+        obtain ⟨sA, hA, he⟩ := hl
+        subst he
+        have hpi := isPerm_perm _ _ hperm.1
+        have hpe := isPerm_perm _ _ hperm.2
+        obtain ⟨gS, hRQ⟩ := saveAll_spec k.g o st.s.storage st.d (fun _ h => h)
+        generalize hd1 : List.foldl (fun d p => updateSync st.s o (fuelOf d) d p) st.d st.s.storage = d1 at gS hRQ hall hA
+        obtain ⟨hu, hoo⟩ := filterMap_docItem { s := st.s, d := d1 } items hall
+        have hadm' : ∀ c ∈ st.s.storage, (edges.filter (·.1 == c)).map (·.2) = st.s.graph.parentsOf c := by
+          intro c hc
+          simp only [admissibleStep, List.all_eq_true] at hadm
+          simpa using hadm c hc
+        obtain ⟨hst, hops, hpar⟩ := reload_struct_facts hs hpi hpe hu hoo hA hadm'
+        obtain ⟨cH, cN, cF, cD, cC⟩ := closeAll_spec st.s o d1
+        have hnd : items.Nodup := hpi.nodup_iff.2 hs.keys.storageNodup
+        obtain ⟨lh, lo⟩ := loadDyn_docItems { s := st.s, d := d1 } items
+          ({ closeAll st.s o d1 with handles := [], ops := [], dnd := 0 } : Dyn) hnd hall
+        obtain ⟨ls, ln, ld, lf, _⟩ := loadDyn_frame (items.filterMap (St.docItem { s := st.s, d := d1 }))
+          ({ closeAll st.s o d1 with handles := [], ops := [], dnd := 0 } : Dyn)
+        intro hf
+        have hfC : (closeAll st.s o d1).fault = none := by
+          have : (loadDyn ({ closeAll st.s o d1 with handles := [], ops := [], dnd := 0 } : Dyn)
+            (items.filterMap (St.docItem { s := st.s, d := d1 }))).fault = none := hf
+          rw [lf] at this; exact this
+        have hf1 : d1.fault = none := by rw [← cF]; exact hfC
+        obtain ⟨i, j⟩ := t (gS.fault hf1)
+        obtain ⟨i1, j1⟩ := (gS.step k.g).post i j hf1
+        show DInv (edges.foldl (fun s e => (s.loadParent e.1 e.2).1) sA) _ ∧ J7 (edges.foldl (fun s e => (s.loadParent e.1 e.2).1) sA) noEx _
+        rw [foldl_loadParent]
+        apply reload_transfer k (s' := { sA with graph := sA.graph.loadParents edges }) hst hops hpar i1 j1
+          (hRQ i hf1) cN cD cC
+        · intro q hq
+          exact lh q (hpi.mem_iff.2 hq)
+        · intro c hc
+          exact lo c (hpi.mem_iff.2 (hs.keys.opSub c hc)) (by simpa [Struct.isOperable] using hc)
+        · intro n; exact ls n
+        · exact ln
+        · exact ld
+
+theorem tinv_init : TInv {} := by
+  intro _
+  refine ⟨⟨rfl, ⟨?_, ?_, ?_, ?_, ?_, ?_⟩, ?_⟩, ?_⟩
+  · intro n x h; cases h
+  · intro q hq; cases hq
+  · intro q hq; cases hq
+  · intro q hq; cases hq
+  · intro q hq; cases hq
+  · intro n x h; cases h
+  · intro q hq; cases hq
+  · intro p hp; cases hp
+
+/-- the invariant holds after every admissible history of the repaired code -/
+private theorem tinv_history (o : Oracle) (hsyn : o.synthNonzero) :
+    ∀ (ops : List Op) (st : St), run Variant.repaired o ops = some st → admissibleRun Variant.repaired o ops = true →
+      StructInv st.s ∧ TInv st := by
+  intro ops
+  induction ops with
+  | nil =>
+    intro st h _
+    simp only [run] at h; injection h with h; subst h
+    exact ⟨structInv_init, tinv_init⟩
+  | cons op ops ih =>
+    intro st h ha
+    have hs := structInv_history Variant.repaired o (op :: ops) st h
+    simp only [run, Option.bind_eq_some_iff, Option.map_eq_some_iff] at h
+    obtain ⟨st0, h0, ⟨r, hr, he⟩⟩ := h
+    subst he
+    simp only [admissibleRun, Bool.and_eq_true, h0] at ha
+    obtain ⟨hs0, t0⟩ := ih st0 h0 ha.1
+    exact ⟨hs, tinv_step o hsyn st0 r.1 op r.2 hs0 t0 ha.2 hr⟩
+
+/-- **no stale `done`, repaired code.** After every admissible history (`admissibleRun`: documents are
+opened only when closed, new documents get fresh names, reloaded documents keep the order of each
+child's connections) under an oracle whose synthesis never has the "no hash" content `0`, in a
+state without a model fault (an unchecked access of the C++ or exhausted fuel), every operation
+with a stored result that reports `done` was built from the announced content of both parents. -/
+theorem no_stale_done_repaired (o : Oracle) (hsyn : o.synthNonzero) (ops : List Op) (st : St)
+    (hrun : runHist Variant.repaired o ops = some st) (hadm : admissibleRun Variant.repaired o ops.reverse = true)
+    (hf : st.d.fault = none) : st.fresh = true := by
+  obtain ⟨hs, t⟩ := tinv_history o hsyn ops.reverse st hrun hadm
+  obtain ⟨i, j⟩ := t hf
+  exact fresh_of_inv hs i j
+
+
+/-! ## the result of an execution, for reachable states -/
+
+/-- After a successful `Execute(p)` in a state satisfying the invariants: the operands' documents
+hold at the END of the call the contents `c1`, `c2` the synthesis was computed from, the document
+of `p` holds the oracle's synthesis of them (aggregated with the previous result `old`), and `p`
+reports `done`. -/
+private theorem exec_result_of_inv (o : Oracle) (hsyn : o.synthNonzero) (st st' : St) (p : Pid) (a : Bool)
+    (hs : StructInv st.s) (i : DInv st.s st.d) (j : J7 st.s noEx st.d)
+    (hstep : step Variant.repaired o st (.execute p a) = some (st', true)) (hf : st'.d.fault = none) :
+    ∃ p1 p2 c1 c2 old n,
+      st.s.graph.parentsOf p = [p1, p2] ∧
+      ((st'.d.handle p1).src.bind st'.d.source).map (·.content) = some c1 ∧
+      ((st'.d.handle p2).src.bind st'.d.source).map (·.content) = some c2 ∧
+      (st'.d.handle p).src = some n ∧ (st'.d.source n).map (·.content) = some (o.synth p c1 c2 old) ∧
+      statusOf st'.s st'.d p = .done := by
+  have k := structOk_of_inv hs
+  simp only [step] at hstep
+  injection hstep with hstep
+  injection hstep with h1 h2
+  subst h1
+  rw [execute_succ] at h2 hf ⊢
+  split at h2
+  · cases h2
+  · rename_i hop
+    rw [if_neg hop] at hf ⊢
+    have hop' : st.s.isOperable p = true := by simpa using hop
+    have hpo : p ∈ st.s.opKeys := by simpa [Struct.isOperable] using hop'
+    obtain ⟨p1, p2, hpar, hs1, hs2⟩ := k.opPar p hpo
+    have hpre := prepare_step k o hsyn (st.s.storage.length + 1) (st.s.graph.parentsOf p) (st.d, true)
+    generalize (st.s.graph.parentsOf p).foldl (prepStep st.s Variant.repaired o (st.s.storage.length + 1)) (st.d, true) = pre
+      at hpre h2 hf ⊢
+    obtain ⟨ff, fp⟩ := finishExecute_spec k o p p1 p2 a pre hpo hpar hs1 hs2
+    have hfpre := ff hf
+    obtain ⟨ipre, _⟩ := hpre.post i j hfpre
+    obtain ⟨out, hty⟩ := fp ipre hf
+    obtain ⟨c1, c2, dS, old, e, iS, y1S, y2S, ty, y1, y2⟩ := out.ok h2
+    have hne : (pre.1.op p).type ≠ .tba := hty h2
+    obtain ⟨d1, d2, d3, n, d4, d5⟩ := saveResult_done k.g o dS p p1 p2 (o.synth p c1 c2 old) c1 c2 (k.opSub p hpo) hpar hs1 hs2
+      iS y1S y2S
+    rw [← e] at d1 d2 d3 d4 d5
+    generalize (finishExecute st.s Variant.repaired o p a pre).1 = dF at y1 y2 d1 d2 d3 d4 d5 hf ⊢
+    refine ⟨p1, p2, c1, c2, old, n, hpar, ?_, ?_, d4, d5, ?_⟩
+    · obtain ⟨m, e1, e2, _⟩ := y1
+      show ((dF.handle p1).src.bind dF.source).map (·.content) = some c1
+      rw [e1]; exact e2
+    · obtain ⟨m, e1, e2, _⟩ := y2
+      show ((dF.handle p2).src.bind dF.source).map (·.content) = some c2
+      rw [e1]; exact e2
+    · show statusOf st.s dF p = .done
+      unfold statusOf
+      have hty' : (dF.op p).type ≠ .tba := by rw [d3, ty]; exact hne
+      have hemp : (dF.handle p).empty = false := Handle.not_empty_of_ed (Handle.ed_of_src d4)
+      simp [hop', hty', d1, d2, hemp]
+
+/-- **result of an execution, reachable states**: the statement of `exec_result_statement` for every
+state the repaired code reaches by an admissible history (under an oracle whose synthesis never has
+the "no hash" content `0`) -/
+def exec_result_reachable_statement : Prop :=
+  ∀ (o : Oracle) (ops : List Op) (st st' : St) (p : Pid) (a : Bool), o.synthNonzero →
+    runHist Variant.repaired o ops = some st → admissibleRun Variant.repaired o ops.reverse = true →
+    step Variant.repaired o st (.execute p a) = some (st', true) → st'.d.fault = none →
+    ∃ p1 p2 c1 c2 old n,
+      st.s.graph.parentsOf p = [p1, p2] ∧
+      ((st'.d.handle p1).src.bind st'.d.source).map (·.content) = some c1 ∧
+      ((st'.d.handle p2).src.bind st'.d.source).map (·.content) = some c2 ∧
+      (st'.d.handle p).src = some n ∧ (st'.d.source n).map (·.content) = some (o.synth p c1 c2 old) ∧
+      statusOf st'.s st'.d p = .done
+
+theorem exec_result_reachable : exec_result_reachable_statement := by
+  intro o ops st st' p a hsyn hrun hadm hstep hf
+  obtain ⟨hs, t⟩ := tinv_history o hsyn ops.reverse st hrun hadm
+  have hf0 : st.d.fault = none := by
+    have k := structOk_of_inv hs
+    simp only [step] at hstep
+    injection hstep with hstep
+    injection hstep with h1 _
+    subst h1
+    exact (execute_step k o hsyn _ st.d p a).fault hf
+  obtain ⟨i, j⟩ := t hf0
+  exact exec_result_of_inv o hsyn st st' p a hs i j hstep hf
+
+
+/-! ## what the hypotheses of the freshness theorem exclude; the unrestricted statements -/
+
+theorem exampleOracle_synthNonzero : exampleOracle.synthNonzero := by
+  intro p c1 c2 old h
+  have h' : (1000 : Nat) + 100 * (p : Nat) + 10 * (c1 : Nat) + (c2 : Nat) = 0 := h
+  omega
+
+/-- a synthesis that may produce the "no hash" content `0` (a collision with the value of a discarded
+handle) and an aggregation that always fails -/
+def zeroOracle : Oracle :=
+  { exampleOracle with synth := fun _ c1 _ _ => if c1 == 2 then 0 else 5, aggOk := fun _ => false }
+
+/-- Each hypothesis of `no_stale_done_repaired` is needed on the model (every line: no fault, the
+freshness predicate fails, `5` or `4` still reports `done`; the last component is admissibility):
+`TriggerOpen` of an open document with a pending change (the manager's `announced` moves, nobody is
+told); a document loaded back with the two connections of a child swapped (the ghost `built` is
+positional); a new document under the name of a destroyed one; a synthesis result with content `0`
+after an automatic discard. None of these is reachable through the harness' manager. -/
+theorem no_stale_done_hypotheses_needed :
+    (runHist Variant.repaired exampleOracle (chain ++ ([.edit 1 2, .openSrc 1] : List Op))).map
+      (fun st => (st.d.fault, st.fresh, statusOf st.s st.d 4)) = some (none, false, .done) ∧
+    admissibleRun Variant.repaired exampleOracle (chain ++ ([.edit 1 2, .openSrc 1] : List Op)).reverse = false ∧
+    (runHist Variant.repaired exampleOracle (chain ++ ([.reload [4, 1, 2, 3, 5] [(4, 1), (4, 2), (5, 3), (5, 4)]] : List Op))).map
+      (fun st => (st.d.fault, st.fresh, statusOf st.s st.d 5)) = some (none, false, .done) ∧
+    admissibleRun Variant.repaired exampleOracle
+      (chain ++ ([.reload [4, 1, 2, 3, 5] [(4, 1), (4, 2), (5, 3), (5, 4)]] : List Op)).reverse = false ∧
+    (runHist Variant.repaired exampleOracle (chain ++ ([.destroy 3, .newSource 3 7] : List Op))).map
+      (fun st => (st.d.fault, st.fresh, statusOf st.s st.d 5)) = some (none, false, .done) ∧
+    admissibleRun Variant.repaired exampleOracle (chain ++ ([.destroy 3, .newSource 3 7] : List Op)).reverse = false ∧
+    (runHist Variant.repaired zeroOracle (chain ++ ([.edit 1 2, .announce 1, .execute 4 true] : List Op))).map
+      (fun st => (st.d.fault, st.fresh, statusOf st.s st.d 5)) = some (none, false, .done) ∧
+    admissibleRun Variant.repaired zeroOracle (chain ++ ([.edit 1 2, .announce 1, .execute 4 true] : List Op)).reverse = true := by
+  decide +kernel
+
+/-- hence the unrestricted statement does not hold for the repaired model either: it needs the
+hypotheses made explicit in `no_stale_done_repaired` -/
+theorem no_stale_done_repaired_unrestricted_false : ¬ no_stale_done_statement Variant.repaired := by
+  intro h
+  have h1 : (runHist Variant.repaired exampleOracle (chain ++ ([.edit 1 2, .openSrc 1] : List Op))).map (·.fresh) = some false := by
+    decide +kernel
+  cases hr : runHist Variant.repaired exampleOracle (chain ++ ([.edit 1 2, .openSrc 1] : List Op)) with
+  | none => rw [hr] at h1; cases h1
+  | some st =>
+    rw [hr] at h1
+    have := h exampleOracle _ st hr
+    simp only [Option.map_some, Option.some.injEq] at h1
+    rw [h1] at this; cases this
+
+/-- the state of `chain` with the handle of operation `4` pointed at the document of its own
+operand `1`: not reachable (a document attached to two pictograms) -/
+def sharedState : St :=
+  { (runHist Variant.pinned exampleOracle chain).getD {} with
+    d := ((runHist Variant.pinned exampleOracle chain).getD {}).d.setHandle 4 ⟨some 1, some 1, 1⟩ }
+
+/-- `exec_result_statement` quantifies over every dynamic state; in a state where a document is attached
+to two pictograms the write of the result changes an operand, and the statement fails. The statement
+for reachable states is `exec_result_reachable`. -/
+theorem exec_result_statement_false : ¬ exec_result_statement := by
+  intro h
+  have hr : run Variant.pinned exampleOracle chain.reverse = some ((runHist Variant.pinned exampleOracle chain).getD {}) := by
+    decide +kernel
+  have hs : StructInv sharedState.s :=
+    structInv_history Variant.pinned exampleOracle _ ((runHist Variant.pinned exampleOracle chain).getD {}) hr
+  have hstep : step Variant.repaired exampleOracle sharedState (.execute 4 false) =
+      some (((step Variant.repaired exampleOracle sharedState (.execute 4 false)).getD ({}, false)).1, true) := by
+    decide +kernel
+  obtain ⟨p1, p2, c1, c2, old, n, hpar, h1, _, h3, h4, _⟩ :=
+    h Variant.repaired exampleOracle sharedState _ 4 false hs (by decide +kernel) hstep (by decide +kernel)
+  have e1 : sharedState.s.graph.parentsOf 4 = [1, 2] := by decide +kernel
+  rw [e1] at hpar
+  injection hpar with hp1 _
+  subst hp1
+  have e2 : ((((step Variant.repaired exampleOracle sharedState (.execute 4 false)).getD ({}, false)).1.d.handle 1).src.bind
+      ((step Variant.repaired exampleOracle sharedState (.execute 4 false)).getD ({}, false)).1.d.source).map (·.content)
+      = some 1411 := by decide +kernel
+  rw [e2] at h1
+  injection h1 with h1
+  subst h1
+  have e3 : (((step Variant.repaired exampleOracle sharedState (.execute 4 false)).getD ({}, false)).1.d.handle 4).src = some 1 := by
+    decide +kernel
+  rw [e3] at h3
+  injection h3 with h3
+  subst h3
+  have e4 : (((step Variant.repaired exampleOracle sharedState (.execute 4 false)).getD ({}, false)).1.d.source 1).map (·.content)
+      = some 1411 := by decide +kernel
+  rw [e4] at h4
+  injection h4 with h4
+  simp only [exampleOracle] at h4
+  have h4' : (1411 : Nat) = 1000 + 100 * 4 + 10 * 1411 + (c2 : Nat) := h4
+  omega
+
 /-! ## non-vacuity -/
+
+/-- an admissible history for `no_stale_done_repaired`: a changed operand announced and re-executed,
+a document edited while closed and reopened, `ExecuteAll`, a redefinition, save → load with rearranged
+items and connections (each child's order kept), a new document attached by hand, a destroyed
+document, an operation inserted and erased -/
+def histAdmissible : List Op := chain ++
+  [.edit 1 2, .announce 1, .execute 4 false, .close 3, .edit 3 5, .openSrc 3, .executeAll,
+   .initFor 4 .synt .empty false, .execute 5 true,
+   .reload [5, 3, 4, 1, 2] [(5, 4), (4, 1), (5, 3), (4, 2)], .openSrc 1, .openSrc 2, .openSrc 3, .executeAll,
+   .newSource 20 7, .connect 3 20, .destroy 1, .insertOperation 4 5 6, .erase 6]
+
+/-- the hypotheses of `no_stale_done_repaired` hold for `histAdmissible` (and for every prefix the
+statuses go through `done`, `outdated`, `broken`, `defined`) -/
+example : exampleOracle.synthNonzero ∧ admissibleRun Variant.repaired exampleOracle histAdmissible.reverse = true ∧
+    (runHist Variant.repaired exampleOracle histAdmissible).map
+      (fun st => (st.d.fault, statusOf st.s st.d 4, statusOf st.s st.d 5, st.d.nextName)) =
+      some (none, .done, .outdated, 20) :=
+  ⟨exampleOracle_synthNonzero, by decide +kernel, by decide +kernel⟩
+
+/-- the hypotheses of `exec_result_reachable`: after the first ten steps of `histAdmissible` the call
+`Execute(4)` succeeds without fault -/
+example : admissibleRun Variant.repaired exampleOracle (chain ++ ([.edit 1 2, .announce 1] : List Op)).reverse = true ∧
+    ((runHist Variant.repaired exampleOracle (chain ++ ([.edit 1 2, .announce 1] : List Op))).bind
+      (fun st => step Variant.repaired exampleOracle st (.execute 4 false))).map
+      (fun r => (r.2, r.1.d.fault, (r.1.d.source 4).map (·.content))) = some (true, none, some 1421) := by
+  decide +kernel
 
 /-- `chain` runs, both operations end `done` with the synthesised contents, no fault -/
 example : (runHist Variant.pinned exampleOracle chain).map
